@@ -273,9 +273,19 @@ func runCluster(t *rapid.T, prop string, root string) {
 		}
 		// a node that reported a decision holds its certificate
 		if pr := nd.f3.Progress(); pr.Phase == gpbft.TERMINATED_PHASE && pr.ID >= m.InitialInstance+uint64(len(stored[i])) && !reached {
-			time.Sleep(50 * time.Millisecond)
-			if _, err := nd.f3.GetCert(bg, pr.ID); err != nil && nd.f3.Progress().Instant == pr.Instant {
-				vev.Fail(t, prop, prop+"/cluster/decision-without-certificate", "node %d terminated instance %d (a decision was reported to the host) but holds no certificate for it: %v", nd.id, pr.ID, err)
+			// (terminate -> ReceiveDecision -> Put is one synchronous call; give a starved goroutine
+			// ten seconds of real time before concluding that it is not going to happen)
+			var gerr error
+			stuck := true
+			for w := 0; w < 200; w++ {
+				if _, gerr = nd.f3.GetCert(bg, pr.ID); gerr == nil || nd.f3.Progress().Instant != pr.Instant {
+					stuck = false
+					break
+				}
+				time.Sleep(50 * time.Millisecond)
+			}
+			if stuck {
+				vev.Fail(t, prop, prop+"/cluster/decision-without-certificate", "node %d terminated instance %d (a decision was reported to the host) but holds no certificate for it: %v", nd.id, pr.ID, gerr)
 			}
 		}
 	}
